@@ -185,6 +185,9 @@ EndChecks(tr, i) ==
                    /\ (\A o \in ObsNames : X.obs[o].status = "FINISHED")
                    /\ X.sch.queue = {} /\ X.cl.running = {})
                  \/ End_C07(X), "L1", i, "C07.stuck")
+       (* one row per simulated timestep, however the run was driven and however *)
+       (* long it went on after the work was done                                *)
+       /\ Report(tr.cfg.api \/ e.budget \/ e.exc.type # "" \/ Len(e.rows) = e.t \div K, "L1", i, "C12.rows")
        /\ IF e.completed /\ e.exc.type = "" /\ Len(tr.segs) = 0 /\ ~tr.cfg.api
           THEN /\ Report(End_C02(X), "L1", i, "C02.end")
                /\ Report(End_C04(X), "L1", i, "C04.end")
@@ -201,7 +204,6 @@ EndChecks(tr, i) ==
                             IN t \in DOMAIN X.tasks => (r.ast = X.tasks[t].ast /\ r.aft = X.tasks[t].aft),
                          "L1", i, "C03.table")
                /\ Report(End_C07(X), "L1", i, "C07.end")
-               /\ Report(Len(e.rows) = e.t \div K, "L1", i, "C12.rows")
                /\ Report(End_C13_complete(e.log), "L1", i, "C13.complete")
                /\ IF End_C13_complete(e.log) THEN Report(End_C13_order(e.log), "L1", i, "C13.order") ELSE TRUE
                /\ IF End_C13_complete(e.log) THEN Report(End_C13_times(e.log, X), "L1", i, "C13.times") ELSE TRUE
